@@ -19,6 +19,7 @@ pub mod population;
 pub mod roundtrip;
 pub mod routing;
 pub mod scientific;
+pub mod seeded;
 pub mod validate;
 
 pub fn property(id: &str, tier: Tier) -> Option<PropertyDef> {
